@@ -6,6 +6,7 @@ EXTENDS Poll
 
 CONSTANTS InitPrios,   \* e.g. <<1, 2, 3>>
           SetPrios,    \* priorities used by SetPollPriority, e.g. {1, 2, 3, 5}
+          SetPrioMsgs, \* messages whose priority is changed (a victim whose priority is toggled: one message)
           Alphabet,    \* subset of {"next","tick","setprio","addback","addfront","conduse","readd"}
           K,           \* perturbation cap of the monitor
           ReAddPinned, \* TRUE: design before the repair of MessageMap::add (new instance keeps poll order 0)
@@ -28,7 +29,7 @@ Perturb(kind, m, a, s2) ==
 Next ==
   \/ "next" \in Alphabet /\ DoNext
   \/ "tick" \in Alphabet /\ DoTick
-  \/ "setprio" \in Alphabet /\ \E m \in 1..NMsg, p \in SetPrios : Perturb("setprio", m, p, SetPrioCallF(st, m, p))
+  \/ "setprio" \in Alphabet /\ \E m \in SetPrioMsgs \cap 1..NMsg, p \in SetPrios : Perturb("setprio", m, p, SetPrioCallF(st, m, p))
   \/ "addback" \in Alphabet /\ \E m \in 1..NMsg : Perturb("addback", m, 0, AddPollF(st, FALSE, m))
   \/ "addfront" \in Alphabet /\ \E m \in 1..NMsg : Perturb("addfront", m, 0, AddPollF(st, TRUE, m))
   \/ "conduse" \in Alphabet /\ \E m \in 1..NMsg : Perturb("conduse", m, 0, CondUseF(st, m))
@@ -57,5 +58,8 @@ AlphaPert == {"next", "tick", "setprio", "addback", "addfront", "conduse"}
 AlphaPertNoTick == {"next", "setprio", "addback", "addfront"}
 AlphaPertCond == {"next", "setprio", "addback", "addfront", "conduse"}
 AlphaReAdd == {"next", "readd"}
+AlphaSelf == {"next", "setprio"}
+P238 == <<2, 3, 8>>
+P18 == <<1, 8>>
 AlphaReAddAll == {"next", "readd", "setprio", "addfront"}
 =============================================================================
